@@ -18,11 +18,23 @@ ID = "C07"
 def make_plan(seed: int, tier: str, opts: dict) -> dict:
     r = random.Random(seed)
     spec = common.gen_supported_spec(r, max_nodes=opts.get("max_nodes", 4), overrun_bias=0.7)
+    n_before_leaves = len(spec["nodes"])
+    if r.random() < opts.get("leaf_p", 0.5):
+        from simrex import spec as _sp
+
+        for _ in range(20):
+            s2 = __import__("copy").deepcopy(spec)
+            _sp.add_leaves(s2, r)
+            if _sp.in_S(s2) is None:
+                spec = s2
+                break
     n_eps = r.choice([1, 2, 3, 3])
     eps = [driver.gen_episode(r, j, open_loop=spec["open_loop"], nsteps=r.randint(3, opts.get("max_steps", 9)), endings=("stop",), override_p=0.0, faults=False) for j in range(n_eps)]
     pairs = [(m, p) for m in compiled.MODES for p in (True, False)]
     r.shuffle(pairs)
     comp = [dict(mode=m, prune=p, s_init=(m == "mcs" and r.random() < 0.4)) for m, p in pairs[:opts.get("pairs", 2)]]
+    if len(spec["nodes"]) > n_before_leaves and not any(c["mode"] == "mcs" and not c["prune"] for c in comp):
+        comp[0] = dict(mode="mcs", prune=False, s_init=False)  # sink nodes present: always look at MCS without pruning
     source = "recorded" if r.random() >= opts.get("generated_p", 0.3) else "generated"
     if source == "generated":
         # rex.artificial.generate_graphs documents (NotImplementedError) that it does not support these settings
